@@ -137,10 +137,11 @@ func newWorld() *world {
 			w.sym["w"+strconv.Itoa(i)+"a"+strconv.Itoa(j)] = a.String()
 		}
 	}
-	mk(0, "c28_w0.wlt", wallet.Options{Type: wallet.WalletTypeDeterministic, Seed: "c28 wallet zero seed", Label: "w0", GenerateN: 3})
+	mk(0, "c28_w0.wlt", wallet.Options{Type: wallet.WalletTypeDeterministic, Seed: "c28 wallet zero seed", Label: "w0", GenerateN: 3,
+		CryptoType: crypto.CryptoTypeSha256Xor})
 	mk(1, "c28_w1.wlt", wallet.Options{Type: wallet.WalletTypeDeterministic, Seed: "c28 wallet one seed", Label: "w1", GenerateN: 2,
 		Encrypt: true, Password: []byte("pw1"), CryptoType: crypto.CryptoTypeSha256Xor})
-	mk(2, "c28_w2.wlt", wallet.Options{Type: wallet.WalletTypeBip44, Seed: bip44Seed, Label: "w2", GenerateN: 2})
+	mk(2, "c28_w2.wlt", wallet.Options{Type: wallet.WalletTypeBip44, Seed: bip44Seed, Label: "w2", GenerateN: 2, CryptoType: crypto.CryptoTypeSha256Xor})
 	w.sym["seed0"] = "c28 wallet zero seed"
 	w.sym["seed1"] = "c28 wallet one seed"
 	w.sym["seed2"] = bip44Seed
@@ -213,7 +214,8 @@ func newWorld() *world {
 		sets[s] = struct{}{}
 	}
 	w.mux = api.VerifNewServerMux(api.VerifMuxConfig{Host: "127.0.0.1:6420", DisableCSRF: true, DisableHeaderCheck: true,
-		EnabledAPISets: sets}, api.NewGateway(dm, v, ws, kv))
+		EnabledAPISets: sets, Health: api.HealthConfig{DaemonUserAgent: useragent.Data{Coin: "skycoin", Version: "0.27.0"}}},
+		api.NewGateway(dm, v, ws, kv))
 	w.symbols()
 	cur = w
 	return w
@@ -421,8 +423,8 @@ func (w *world) txnOfKind(kind string) (coin.Transaction, facts) {
 		txn = w.confirmed[1] // in block 1: the previous block is the genesis block
 		histOf(txn)
 	case "genesis":
-		txn = w.confirmed[0] // no inputs
-		f.checks = "hard"
+		txn = w.confirmed[0] // no inputs: the fee check (soft) comes before the hard constraints
+		f.checks = "soft"
 	case "pool":
 		txn = w.pool[0]
 	case "unknown":
@@ -470,7 +472,7 @@ func (w *world) txnOfKind(kind string) (coin.Transaction, facts) {
 	case "noin":
 		must(txn.PushOutput(w.addrs[1], 1e6, 1), "PushOutput")
 		must(txn.UpdateHeader(), "UpdateHeader")
-		f.checks = "hard"
+		f.checks = "soft"
 	case "dupin":
 		ux := *w.spendable(3)
 		must(txn.PushInput(ux.Hash()), "PushInput")
